@@ -108,29 +108,62 @@ def _return_from_endless_loop(stmts):
     return out
 
 
+def _may_return(stmts):
+    """a `return` of this function occurs somewhere in the statements (nested definitions excluded)"""
+    for st in stmts:
+        if isinstance(st, ast.Return):
+            return True
+        if isinstance(st, (ast.FunctionDef, ast.AsyncFunctionDef, ast.ClassDef, ast.Lambda)):
+            continue
+        for fld in ("body", "orelse", "finalbody", "handlers", "cases"):
+            sub = getattr(st, fld, None)
+            if isinstance(sub, list) and _may_return([x for x in sub if isinstance(x, ast.AST)]):
+                return True
+    return False
+
+
 def eliminate_early_returns(stmts):
-    """rewrite `if c: ...; return x` followed by more statements into if/else so that returns only occur at tails"""
+    """rewrite `if c: ...; return x` followed by more statements into if/else so that returns only occur at tails.  A branch that
+    returns on some of its paths only (`if a: ...; if b: return x` followed by more statements) gets the following statements appended
+    to each arm that can fall through, so that no `return` is left in front of code it must skip."""
     stmts = _return_from_endless_loop(stmts)
     out = []
     for i, st in enumerate(stmts):
         if isinstance(st, ast.If):
+            b, o = st.body, st.orelse
             st = copy.copy(st)
-            st.body = eliminate_early_returns(st.body)
-            st.orelse = eliminate_early_returns(st.orelse)
             rest = stmts[i + 1:]
-            if rest and _ends_in_return(st.body) and not _ends_in_return(st.orelse):
-                st.orelse = st.orelse + eliminate_early_returns(rest)
+            eb, eo = eliminate_early_returns(b), eliminate_early_returns(o)
+            if rest and (_may_return(b) or _may_return(o)):
+                rb, ro = _ends_in_return(eb), bool(o) and _ends_in_return(eo)
+                st.body = eb if rb else eliminate_early_returns(list(b) + [copy.deepcopy(x) for x in rest])
+                st.orelse = eo if ro else eliminate_early_returns(list(o) + list(rest))
                 out.append(st)
                 return out
-            if rest and _ends_in_return(st.orelse) and st.orelse and not _ends_in_return(st.body):
-                st.body = st.body + eliminate_early_returns(rest)
-                out.append(st)
-                return out
-            if rest and _ends_in_return(st.body) and _ends_in_return(st.orelse):
-                out.append(st)
-                return out        # rest is dead code
+            st.body, st.orelse = eb, eo
         out.append(st)
     return out
+
+
+def only_tail_returns(stmts, tail=True):
+    """every `return` is the last statement of a block in tail position (through if / with): replacing it by an assignment or dropping
+    it cannot let control fall into statements the return skipped"""
+    for i, st in enumerate(stmts):
+        last = tail and i == len(stmts) - 1
+        if isinstance(st, ast.Return):
+            if not last:
+                return False
+        elif isinstance(st, ast.If):
+            if not only_tail_returns(st.body, last) or not only_tail_returns(st.orelse, last):
+                return False
+        elif isinstance(st, (ast.With, ast.AsyncWith)):
+            if not only_tail_returns(st.body, last):
+                return False
+        elif isinstance(st, (ast.FunctionDef, ast.AsyncFunctionDef, ast.ClassDef)):
+            continue
+        elif _may_return([st]):
+            return False
+    return True
 
 
 def _map_returns(stmts, fn):
@@ -326,6 +359,8 @@ def splice(h, binding, context, target, caller_names, tag, nonnull=None):
     """statements replacing the call; None if impossible"""
     body = [copy.deepcopy(st) for st in h.node.body if not (isinstance(st, ast.Expr) and isinstance(st.value, ast.Constant) and isinstance(st.value.value, str))]
     body = eliminate_early_returns(body)
+    if not only_tail_returns(body):
+        return None
     pre = []
     subst = {}
     helper_assigned = _assigned_names(h.node)
